@@ -270,7 +270,7 @@ pub fn run(c: &Case) -> Case {
 
 // ---- property oracle on the implementation's outputs (independent of the model) ----
 fn frame_wf(f: &RespFrame) -> bool {
-    let nocrlf = |b: &Vec<u8>| !b.windows(2).any(|w| w == b"\r\n");
+    let nocrlf = |b: &Vec<u8>| !b.iter().any(|c| *c == b'\r' || *c == b'\n');
     match f {
         RespFrame::SimpleString(b) | RespFrame::Error(b) => nocrlf(b),
         RespFrame::NoResponse => false,
